@@ -475,6 +475,10 @@ func main() {
 		}
 	}
 	r.Set("path_alphabet", alpha)
+	// the parts with a fixed, small cost first: the time budget, if it is ever reached, cuts the big sweeps
+	scale(r)
+	deep(r)
+	muxMethods(r)
 	var setsBuilt, setsRejected, orders int64
 	var mu sync.Mutex
 	for _, sw := range sweeps {
@@ -596,7 +600,7 @@ func main() {
 							continue
 						}
 						for qi, path := range sw.paths {
-							if qi%4 != hint%4 && !r.Thorough() {
+							if qi%4 != hint%4 && !(r.Thorough() && sw.name == "mid-segment-placeholders") {
 								continue // quick: every path with one of the hints
 							}
 							res := lookup(hrt, path)
@@ -624,9 +628,6 @@ func main() {
 			mu.Unlock()
 		})
 	}
-	muxMethods(r)
-	deep(r)
-	scale(r)
 	r.Set("builds_accepted", setsBuilt)
 	r.Set("builds_rejected", setsRejected)
 	r.Assume("reference matcher (props/c05: parsePattern/match) is the definition of 'instantiates'",
